@@ -72,7 +72,11 @@ func smallValue(t *rapid.T, attr jsonapi.Attr, label string) any {
 		b = i > 0
 	case jsonapi.AttrTypeTime:
 		// the first two are the same instant in different zones: a tie
-		b = []time.Time{t0, t0.In(time.FixedZone("", 3600)), t0.Add(time.Hour).In(time.FixedZone("", 7200))}[i]
+		// (and two instants far from the present: the zero time and year 9000)
+		b = rapid.SampledFrom([]time.Time{
+			t0, t0.In(time.FixedZone("", 3600)), t0.Add(time.Hour).In(time.FixedZone("", 7200)),
+			{}, time.Date(9000, 1, 2, 3, 4, 5, 6, time.UTC),
+		}).Draw(t, label+"-time")
 	case jsonapi.AttrTypeBytes:
 		// (lengths differ too: the order is lexicographic, not by length)
 		b = rapid.SampledFrom([][]byte{{}, {1, 2}, {2, 1}, {0, 9, 9}, {1}, {1, 2, 0}}).Draw(t, label+"-bytes")
